@@ -96,15 +96,9 @@ func c20Run(c *mc.Ctx) {
 		}
 		p = q
 	}
-	// every exported field of the header is a header field, the deprecated PayloadOffset included
-	// (the library does not set it; a caller may)
-	p.Header.PayloadOffset = 12 + 4*len(w.CSRC) + 1000*(mut%2)
 	cl := p.Clone()
 	hcl := p.Header.Clone()
 	c.Ops(2)
-	if cl.Header.PayloadOffset != p.Header.PayloadOffset || hcl.PayloadOffset != p.Header.PayloadOffset {
-		c.Failf("clone-differs", "%s: PayloadOffset %d cloned as %d (Packet.Clone) / %d (Header.Clone)", describeWire(w), p.Header.PayloadOffset, cl.Header.PayloadOffset, hcl.PayloadOffset)
-	}
 	if d := comparePacket(cl, w); d != "" {
 		c.Failf("clone-differs", "%s: Packet.Clone(): %s", describeWire(w), d)
 	}
